@@ -114,26 +114,23 @@ def excludes_degenerate_names(b, e, infos):
         for x in walk(i if i is not None else a):
             if isinstance(x, Elem) and is_call(strip(x.container), 'os.listdir'):
                 names.add(cid(x))
-    for c, pol, n in guards(b, e.id):
-        c2, p2 = unwrap_not(c, pol)
-        for x in ([c2] + (list(c2.values) if isinstance(c2, BoolT) else [])):
-            x = strip(x)
-            if not (isinstance(x, Cmp) and x.op in ('in', 'not in')):
-                continue
-            if not contains(x.left, lambda y: cid(y) in names):
-                continue
-            consts = set()
-            for y in walk(x.right):
-                if isinstance(y, Const) and isinstance(y.value, str):
-                    consts.add(y.value)
-                if isinstance(y, Const) and isinstance(y.value, (tuple, list)):
-                    consts |= set(y.value)
-            covers = {'', '.', '..'} <= consts or \
-                {'.trashinfo', '..trashinfo', '...trashinfo'} <= consts
-            excluded = (x.op == 'not in' and p2) or (x.op == 'in' and not p2)
-            if covers and excluded:
-                return True
-    return False
+    def excl(c2, p2):
+        x = strip(c2)
+        if not (isinstance(x, Cmp) and x.op in ('in', 'not in')):
+            return False
+        if not contains(x.left, lambda y: cid(y) in names):
+            return False
+        consts = set()
+        for y in walk(x.right):
+            if isinstance(y, Const) and isinstance(y.value, str):
+                consts.add(y.value)
+            if isinstance(y, Const) and isinstance(y.value, (tuple, list)):
+                consts |= set(y.value)
+        covers = {'', '.', '..'} <= consts or \
+            {'.trashinfo', '..trashinfo', '...trashinfo'} <= consts
+        excluded = (x.op == 'not in' and p2) or (x.op == 'in' and not p2)
+        return covers and excluded
+    return established(b, e.id, excl)
 
 
 def guarded_read(b, r_):
